@@ -405,3 +405,37 @@ pub fn areal_strategy() -> impl Strategy<Value = G> {
         },
     )
 }
+
+/// One geometry and several coincidence-biased partners on the same board.
+#[derive(Clone, Debug, Serialize, Deserialize)]
+pub struct Scene {
+    pub a: G,
+    pub partners: Vec<G>,
+}
+
+pub fn scene_strategy(max_partners: usize) -> impl Strategy<Value = Scene> {
+    (raw_geom(), proptest::collection::vec(raw_geom(), 1..=max_partners), 1usize..=BOARD, mat_strategy()).prop_filter_map(
+        "out of domain",
+        |(ra, rbs, g, m)| {
+            let a0 = build_geom(&ra, g, &[], None)?;
+            let pool = feature_pool(&a0);
+            let a = apply_mat(&a0, &m);
+            if !in_relate_domain(&a) {
+                return None;
+            }
+            let mut partners = vec![];
+            for rb in &rbs {
+                if let Some(b) = build_geom(rb, g, &pool, Some(cells_of(&ra))) {
+                    let b = apply_mat(&b, &m);
+                    if in_relate_domain(&b) {
+                        partners.push(b);
+                    }
+                }
+            }
+            if partners.is_empty() {
+                return None;
+            }
+            Some(Scene { a, partners })
+        },
+    )
+}
